@@ -82,6 +82,11 @@ def base_ns(draw=None, probes=0, hooks=False):
             dict(t='tuple', items=['k1', dict(t='obj', attrs=dict(
                 va='⟦SP.1.va⟧'))])]),
         ss=dict(t='list', items=['⟦s0⟧', '⟦s1⟧']),
+        # objects, texts and numbers in one sequence
+        smix=dict(t='list', items=[
+            dict(t='obj', attrs=dict(va='⟦MX.0.va⟧', xi='⟦MX.0.xi⟧')),
+            '⟦mx1⟧', 7,
+            dict(t='obj', attrs=dict(va='⟦MX.3.va⟧')), '⟦mx4⟧']),
         VfA=dict(t='exc', n='VfA'), VfB=dict(t='exc', n='VfB'),
         VfC=dict(t='exc', n='VfC'), VfX=dict(t='exc', n='VfX'),
         VfM=dict(t='exc', n='VfM'),
@@ -169,7 +174,7 @@ def base_ns(draw=None, probes=0, hooks=False):
 
 PLAIN_NAMES = ['va', 'vb', 'vn', 'v']
 COND_NAMES = ['ct', 'cf', 'cu', 'ft', 'ff', 'va', 'vz', 'c', 'v', 's']
-SEQ_NAMES = ['s0', 's2', 'ss', 's']
+SEQ_NAMES = ['s0', 's2', 'ss', 's', 'smix']
 
 
 # literal batch options (always with an explicit orphan; C11's statement
